@@ -309,7 +309,14 @@ func expandStep(cur variant, st sealStep, prev []sealStep, orig []byte, lay layo
 				b := []byte(str)
 				b[j] = b64alpha[v^m]
 				r, err := base64.StdEncoding.DecodeString(string(b))
-				if err != nil {
+				if err != nil || len(r) != len(raw) {
+					continue
+				}
+				first := 0 // the step is labelled with the cell of the first byte that changes
+				for first < len(r) && r[first] == raw[first] {
+					first++
+				}
+				if first < s || first >= e {
 					continue
 				}
 				add(r, fmt.Sprintf("b64[%d]:%c->%c", j, str[j], b[j]))
